@@ -11,10 +11,17 @@
 (***************************************************************************)
 EXTENDS Blocks, Json
 
-Bases ==
+CONSTANT Deep       \* thorough tier: more base documents
+
+QuickBases ==
   [b1 |-> <<"info", "srv", "tag1", "tag2", "t1", "t3", "e1", "urlAI", "tagged", "rpc">>,
    b2 |-> <<"t1", "t2", "urlA", "getB", "mac", "useM">>,
    b3 |-> <<"tag1", "tag2", "urlT", "tagrep", "t1", "e1">>]
+DeepBases ==
+  [b4 |-> <<"infoV", "srv2", "t1", "reqT", "tAny", "e1", "t4", "pathM">>,
+   b5 |-> <<"tag1", "mac", "mac2", "tag2", "rpc", "e1", "enumQ">>,
+   b6 |-> <<"t1", "bodyT", "urlAI", "srv", "tag1", "tag2", "tagged">>]
+Bases == IF Deep THEN QuickBases @@ DeepBases ELSE QuickBases
 
 VARIABLES base, fault
 vars == <<base, fault>>
@@ -58,18 +65,18 @@ Faults(b) ==
           IF \E x \in 1..n : doc[x].k = "ENUM" THEN "none" ELSE "enumnotfound", n + 1, "body1", 1),
         F("resp-nobody", doc \o <<D("GET", <<"pdup">>, "", FALSE, "", "")>>, "dupparam", n + 1, "kw", 1),
         \* --- faults found by validateCatalog / the add functions of nested directives ---
-        F("response-without-body", doc \o <<D("GET", <<"pz">>, "", FALSE, "", ""), D("RESP", <<>>, "", FALSE, "", "200"),
+        F("response-without-body", doc \o <<D("GET", <<"pf">>, "", FALSE, "", ""), D("RESP", <<>>, "", FALSE, "", "200"),
                                             D("Headers", <<>>, "", FALSE, "hdr", ""), D("RESP", <<"any">>, "", FALSE, "", "404")>>, "respnobody", n + 2, "kw", 4),
-        F("request-without-body", doc \o <<D("POST", <<"pz">>, "", FALSE, "", ""), D("Request", <<>>, "", FALSE, "", ""),
+        F("request-without-body", doc \o <<D("POST", <<"pf">>, "", FALSE, "", ""), D("Request", <<>>, "", FALSE, "", ""),
                                            D("Headers", <<>>, "", FALSE, "hdr", ""), D("RESP", <<"any">>, "", FALSE, "", "200")>>, "reqnobody", n + 2, "kw", 4),
         F("info-empty", IF \E x \in 1..n : doc[x].k = "INFO" THEN doc ELSE doc \o <<D("INFO", <<>>, "", FALSE, "", "")>>,
                         IF \E x \in 1..n : doc[x].k = "INFO" THEN "none" ELSE "infoempty", n + 1, "kw", 1),
-        F("type-and-notation", doc \o <<D("GET", <<"pz">>, "", FALSE, "", ""), D("RESP", <<"@t1", "any">>, "", FALSE, "", "200")>>, "typeandnotation", n + 2, "kw", 2),
-        F("body-under-response-with-parameter", doc \o <<D("GET", <<"pz">>, "", FALSE, "", ""), D("RESP", <<"any">>, "", FALSE, "", "200"),
+        F("type-and-notation", doc \o <<D("GET", <<"pf">>, "", FALSE, "", ""), D("RESP", <<"@t1", "any">>, "", FALSE, "", "200")>>, "typeandnotation", n + 2, "kw", 2),
+        F("body-under-response-with-parameter", doc \o <<D("GET", <<"pf">>, "", FALSE, "", ""), D("RESP", <<"any">>, "", FALSE, "", "200"),
                                                          D("Body", <<"any">>, "", FALSE, "", "")>>, "paramsforbidden", n + 2, "kw", 3),
-        F("method-without-protocol", doc \o <<D("URL", <<"pz">>, "", FALSE, "", ""), D("Method", <<"bar">>, "", FALSE, "", "")>>, "noprotocol", n + 2, "kw", 2),
-        F("wrong-protocol", doc \o <<D("URL", <<"pz">>, "", FALSE, "", ""), D("Protocol", <<"soap">>, "", FALSE, "", "")>>, "badprotocol", n + 2, "kw", 2),
-        F("http-and-rpc-in-one-url", doc \o <<D("URL", <<"pz">>, "", FALSE, "", ""), D("Protocol", <<"json-rpc-2.0">>, "", FALSE, "", ""),
+        F("method-without-protocol", doc \o <<D("URL", <<"pf">>, "", FALSE, "", ""), D("Method", <<"bar">>, "", FALSE, "", "")>>, "noprotocol", n + 2, "kw", 2),
+        F("wrong-protocol", doc \o <<D("URL", <<"pf">>, "", FALSE, "", ""), D("Protocol", <<"soap">>, "", FALSE, "", "")>>, "badprotocol", n + 2, "kw", 2),
+        F("http-and-rpc-in-one-url", doc \o <<D("URL", <<"pf">>, "", FALSE, "", ""), D("Protocol", <<"json-rpc-2.0">>, "", FALSE, "", ""),
                                               D("GET", <<>>, "", FALSE, "", ""), D("RESP", <<"any">>, "", FALSE, "", "200")>>, "mixedurl", n + 3, "kw", 4),
         F("unused-path-parameter", doc \o <<D("GET", <<"pci">>, "", TRUE, "", ""), D("Path", <<>>, "", FALSE, "px", ""), D("RESP", <<"any">>, "", FALSE, "", "200"), CloseTok>>,
                                    IF \E x \in 1..n : doc[x].k \in Methods /\ doc[x].p = <<"pci">> /\ doc[x].k = "GET" THEN "none" ELSE "unusedpathparam", n + 2, "kw", 4),
@@ -83,7 +90,10 @@ Spec == Init /\ [][Next]_vars
 BaseValid == Build(Doc0(base)).res = "ok"
 R == Build(fault.doc)
 FaultDetected == IF fault.cls = "none" THEN TRUE
-                 ELSE R.res = "err" /\ R.cls = fault.cls /\ R.tok = fault.tok /\ R.where = fault.where
+                 ELSE /\ R.res = "err" /\ R.cls = fault.cls /\ R.where = fault.where
+                      /\ \/ R.tok = fault.tok
+                         \/ fault.doc[fault.tok].k = "PASTE" /\ fault.doc[R.tok].k = "PASTE" /\ R.tok > fault.tok
+                            \* (a fault on a PASTE inside a MACRO body surfaces at the outermost PASTE: known finding C03-paste-relocation)
 
 ASSUME PrintT("L " \o ToJson(PoolsJson))
 EmitInv == PrintT("E " \o ToJson([base |-> base, kind |-> fault.kind, model |-> [res |-> R.res, cls |-> R.cls, tok |-> R.tok, where |-> R.where], doc |-> fault.doc, app |-> fault.app,
